@@ -96,7 +96,11 @@ fn execute(seq: &[usize], ctx: &WorkerCtx) -> ExecResult {
                     }
                 }
                 "unknown_control_99" => { nw.peer.send(&pt(RefVal::Tuple(vec![RefVal::int(99), d1.clone(), RefVal::atom("x")]), Some(mark.clone()))); }
-                "control_rejected_by_parser" => { nw.peer.send(&pt(RefVal::Tuple(vec![RefVal::int(35), RefVal::int(-1), peer_pid(1), d1.clone()]), None)); }
+                "control_rejected_by_parser" => {
+                    // a well-formed term where the control tuple belongs, a different one at each position of the sequence
+                    let ctl = [RefVal::Tuple(vec![RefVal::int(35), RefVal::int(-1), peer_pid(1), d1.clone()]), RefVal::Nil, RefVal::Tuple(vec![]), RefVal::Tuple(vec![RefVal::atom("x")]), RefVal::int(5), RefVal::Tuple(vec![RefVal::int(256), d1.clone()])];
+                    nw.peer.send(&pt(ctl[(n as usize - 1) % ctl.len()].clone(), None));
+                }
                 "tick" => { nw.peer.send(&[0, 0, 0, 0]); }
                 "undecodable_body" => {
                     // a different kind of undecodable body at each position of the sequence
